@@ -129,6 +129,8 @@ type Desc struct {
 	HelloPlace   string `json:"hello_place,omitempty"`
 	// CloseErr: the transport's Close returns an error (after closing).
 	CloseErr bool `json:"close_err,omitempty"`
+	// SearchDepth > 0: options.WithPromptSearchDepth(SearchDepth) is passed (0 = library default 1000).
+	SearchDepth int `json:"search_depth,omitempty"`
 	// Foreign: options meant for CLI drivers that the user's option list carries as well (one list
 	// shared between the CLI and the NETCONF driver of a device); OptOrder is the order in which the
 	// whole list (transport, timeout, read delay, [preferred version], Foreign...) is passed.
@@ -757,6 +759,28 @@ func gen(tier string, seed int64) []mon.Case {
 			}
 		}
 	}
+	// --- known finding family: the hello's last line (through the delimiter) is longer than the
+	// prompt search depth and a single LF follows the delimiter (default depth and a small one)
+	perLong := 1
+	if tier == "thorough" {
+		perLong = 4
+	}
+	r6 := rand.New(rand.NewSource(seed*7919 + 9999909))
+	for k := 0; k < perLong; k++ {
+		for ci, c := range cells {
+			for _, depth := range []int{0, []int{8, 12}[(k+ci)%2]} {
+				d := GenDesc(r6, c, (k+ci)%2 == 1, -1)
+				d.Layout, d.Indent, d.LFBefore, d.LFAfter, d.SearchDepth = "oneline", "", false, true, depth
+				for i := 0; len(buildHello(&d)) < 1100 && depth == 0; i++ {
+					m := randName(r6, 8+r6.Intn(8))
+					d.Caps = append(d.Caps, "urn:vendor:yang:"+m+"?module="+m+";revision=2022-02-0"+strconv.Itoa(1+i%9))
+				}
+				d.Hello = buildHello(&d)
+				d.Seg = genSeg(r6, len(d.Hello))
+				add(d)
+			}
+		}
+	}
 	// --- option lists that also carry options meant for CLI drivers, all cells
 	perForeign := 12
 	if tier == "thorough" {
@@ -1055,6 +1079,9 @@ func RunDesc(d Desc) mon.Result {
 	if d.Preferred != "" {
 		opts = append(opts, options.WithNetconfPreferredVersion(d.Preferred))
 	}
+	if d.SearchDepth > 0 {
+		opts = append(opts, options.WithPromptSearchDepth(d.SearchDepth))
+	}
 	for _, f := range d.Foreign {
 		opts = append(opts, foreignOption(f, len(hello)))
 	}
@@ -1193,10 +1220,36 @@ func RunDesc(d Desc) mon.Result {
 	obs["trap_capabilities"] = int64(d.Traps)
 	nonTrivial := d.Prefix != "" || helloReads >= 2 || want == fail
 
+	// the hello's last line through the delimiter is longer than the search depth and exactly one LF
+	// follows the delimiter
+	longLastLineThenLF := false
+	{
+		depth := 1000
+		if d.SearchDepth > 0 {
+			depth = d.SearchDepth
+		}
+		for _, f := range d.Foreign {
+			if v, ok := strings.CutPrefix(f, "psd:"); ok {
+				depth, _ = strconv.Atoi(v)
+			}
+		}
+		lastLine := n - (bytes.LastIndexByte(hello[:n], '\n') + 1)
+		longLastLineThenLF = string(hello[n:]) == "\n" && lastLine > depth
+		if longLastLineThenLF {
+			obs["long_last_line_then_lf_sessions"] = 1
+			tags = append(tags, fmt.Sprintf("long-last-line-then-lf:depth=%d", depth))
+		}
+	}
 	timedOut := func(e error) bool { return errors.Is(e, util.ErrTimeoutError) }
 	judgeTimeout := func(what string, e error, needed int) {
 		if conn.Delivered() >= needed && !mon.LoadedSince(t0) {
-			bad(1, "c09/"+what+"-timeout", "%s timed out (%v) although all %d bytes it needed had been delivered", what, e, needed)
+			key := "c09/" + what + "-timeout"
+			if what == "open" && longLastLineThenLF {
+				// class decided from the descriptor (KNOWN_FINDINGS.json): the channel cuts its search
+				// window at the LF after the delimiter and never sees the delimiter
+				key += ":one-line-hello-over-search-depth-then-lf"
+			}
+			bad(1, key, "%s timed out (%v) although all %d bytes it needed had been delivered", what, e, needed)
 		} else {
 			inconclusive = fmt.Sprintf("%s timed out with %d/%d bytes delivered (load)", what, conn.Delivered(), needed)
 		}
@@ -1558,7 +1611,7 @@ func init() {
 			"a transport Close that returns an error has nevertheless closed; the error identity of a failing negotiation and exactly one transport Close are judged all the same",
 			"capability escape forms judged: the five predefined entities and escaped escapes; numeric character references ON THE WIRE (&#38;, &#x26;) are generated only with numericRefsOnWire (off: the pinned library leaves them unresolved - reported finding, decision pending)",
 			"foreign options: a user option that does not apply to NETCONF session establishment must not change the outcome; WithReturnChar other than LF only where the table does not select 1.1 (the library writes the return char as the LF of the chunked framing); WithPromptSearchDepth >= 32 (see next)",
-			"a LF after the hello's delimiter is only generated when an earlier LF lies within the last PromptSearchDepth bytes (multi-line layouts): otherwise the pinned channel cuts its search window at that LF and never sees the delimiter (reported finding, decision pending)",
+			"a LF after the hello's delimiter is generated when an earlier LF lies within the last PromptSearchDepth bytes (multi-line layouts), and in a small dedicated family where it does not (one-line hello longer than the depth, default 1000 and 8/12): there the pinned channel cuts its search window at that LF and never sees the delimiter - KNOWN finding, key c09/open-timeout:one-line-hello-over-search-depth-then-lf, decided from the descriptor; any other open timeout keeps the generic key",
 			"trusted base: ncwire strict codec, ncsim server model, encoding/xml, the table (12 lines)",
 			"timeouts 10 s (open) / 6 s (rpc); a timeout is judged only if every needed byte had been delivered and the load canary is quiet, else inconclusive",
 		},
